@@ -46,6 +46,74 @@ const ACTS: &[Act] = &[
     Act::AckPrevEpoch, Act::AckWrongDigest, Act::AckForPeerChallenge, Act::AckTruncated, Act::AckWrongTag, Act::Disconnect,
 ];
 
+/// Wrong digests of every structure a careless comparison might let through: single bits, whole-digest
+/// transformations, the same mask in two or four words (cancels in an XOR accumulator), permutations of the
+/// words, correct prefixes and suffixes.
+fn corrupt_digest(d: [u8; 16], variant: usize) -> [u8; 16] {
+    let mut o = d;
+    match variant % 24 {
+        0 => o[3] ^= 0x40,
+        1 => o[0] ^= 1,
+        2 => o[15] ^= 0x80,
+        3 => o.iter_mut().for_each(|b| *b = !*b),
+        4 => o.iter_mut().for_each(|b| *b ^= 0xA5),
+        5 => {
+            o[1] ^= 0x10;
+            o[5] ^= 0x10;
+        }
+        6 => {
+            o[2] ^= 0x01;
+            o[14] ^= 0x01;
+        }
+        7 => {
+            for w in 0..4 {
+                o[w * 4] ^= 0x80;
+            }
+        }
+        8 => o.swap(0, 4),
+        9 => {
+            // swap the first two words
+            for k in 0..4 {
+                o.swap(k, 4 + k);
+            }
+        }
+        10 => o.reverse(),
+        11 => o.rotate_left(1),
+        12 => o = [0u8; 16],
+        13 => o = [0xffu8; 16],
+        14 => o[8..].iter_mut().for_each(|b| *b = 0),
+        15 => o[..8].iter_mut().for_each(|b| *b = 0),
+        16 => o[15] = o[15].wrapping_add(1),
+        17 => {
+            o[0] ^= 0xff;
+            o[4] ^= 0xff;
+            o[8] ^= 0xff;
+            o[12] ^= 0xff;
+        }
+        18 => {
+            o[7] ^= 0x20;
+            o[11] ^= 0x20;
+        }
+        19 => o[8] ^= 0x01,
+        20 => o.iter_mut().enumerate().for_each(|(i, b)| *b ^= i as u8 + 1),
+        21 => {
+            // two bytes exchanged inside one word
+            o.swap(1, 2);
+            if o == d {
+                o[1] ^= 1;
+            }
+        }
+        22 => o.rotate_right(4),
+        _ => o[12] ^= 0x04,
+    }
+    if o == d {
+        o[0] ^= 1;
+    }
+    o
+}
+
+static CORRUPTION: std::sync::atomic::AtomicUsize = std::sync::atomic::AtomicUsize::new(0);
+
 #[derive(Clone)]
 struct Cfg {
     cookie: String,
@@ -130,8 +198,8 @@ fn run_sequence(ctx: &Ctx, cfg: &Cfg, seq: &[Act], origin: &str) {
                     sm.handle_challenge_ack(&m).map(|_| None).map_err(|e| e.to_string())
                 }
                 Act::AckWrongDigest => {
-                    let mut d = challenge_digest(&cfg.cookie, sh.replied_challenge.unwrap_or(1));
-                    d[3] ^= 0x40;
+                    let d = challenge_digest(&cfg.cookie, sh.replied_challenge.unwrap_or(1));
+                    let d = corrupt_digest(d, CORRUPTION.fetch_add(1, std::sync::atomic::Ordering::Relaxed));
                     let mut m = vec![b'a'];
                     m.extend_from_slice(&d);
                     sm.handle_challenge_ack(&m).map(|_| None).map_err(|e| e.to_string())
@@ -523,8 +591,8 @@ async fn play(peer: &mut Peer, dev: Dev, silent: std::sync::Arc<std::sync::Mutex
             Some(t)
         }
         WrongDigest => {
-            let mut d = challenge_digest(&peer.cookie, client_challenge);
-            d[0] ^= 1;
+            let d = challenge_digest(&peer.cookie, client_challenge);
+            let d = corrupt_digest(d, CORRUPTION.fetch_add(1, std::sync::atomic::Ordering::Relaxed));
             let _ = peer.write_frame2(&Peer::ack_body(&d)).await;
             None
         }
